@@ -1313,9 +1313,11 @@ static void initializer2(Token **rest, Token *tok, Initializer *init) {
     // A struct can be initialized with another struct. E.g.
     // `struct T x = y;` where y is a variable of type `struct T`.
     // Handle that case first.
+    // An expression of another struct type belongs to the first member
+    // that has its type (brace elision).
     Node *expr = assign(rest, tok);
     add_type(expr);
-    if (expr->ty->kind == TY_STRUCT) {
+    if (expr->ty->kind == TY_STRUCT && is_compatible(expr->ty, init->ty)) {
       init->expr = expr;
       return;
     }
